@@ -2,17 +2,33 @@ package main
 
 import (
 	"fmt"
+	"os"
 	"sync"
 )
 
+// Goroutines of the program under test are real goroutines of the engine passing a baton: exactly one runs at a time.
+// Control can change hands only immediately BEFORE a visible operation (channel op, select, mutex/rwmutex op,
+// WaitGroup op, atomic op, yield) or when a goroutine exits. At such a point every enabled goroutine (one whose pending
+// visible operation can execute) is an option; the pick is a choice of the path. Reductions:
+//   - preemption bound (optional): switching away from a goroutine whose own operation is enabled costs one preemption;
+//   - sleep sets: after the subtree in which goroutine A moves first has been explored, A sleeps in the sibling subtrees
+//     until an operation dependent with A's pending one is executed (dependent = shares a synchronisation object, unless
+//     both are read-like). Sound for data-race-free code, where operations on different objects commute.
+
 type killed struct{}
+
+type pendOp struct {
+	objs []any
+	kind string
+}
 
 type G struct {
 	id     int
 	resume chan struct{}
 	done   bool
-	pred   func() bool // nil => runnable
+	pred   func() bool // nil => pending operation is enabled
 	what   string
+	pend   pendOp
 }
 
 type sendW struct {
@@ -22,27 +38,35 @@ type sendW struct {
 }
 
 type ChanV struct {
-	cap    int
-	buf    []V
-	closed bool
-	sendq  []*sendW
+	cap         int
+	buf         []V
+	closed      bool
+	sendq       []*sendW
 	recvWaiting int
-	elemZero func() V
+	elemZero    func() V
+}
+
+type sleepEnt struct {
+	g    *G
+	pend pendOp
 }
 
 type Sched struct {
-	in      *Interp
-	gs      []*G
-	cur     *G
-	kill    chan struct{}
-	fatal   *pathEnd
-	wg      sync.WaitGroup
-	preempt int
-	maxPreempt int
-	mutex   map[Ptr]*mstate
-	wgs     map[Ptr]*int
-	atomVals map[Ptr]V
-	switches int
+	in         *Interp
+	gs         []*G
+	cur        *G
+	kill       chan struct{}
+	fatal      *pathEnd
+	wg         sync.WaitGroup
+	preempt    int
+	maxPreempt int // < 0: unbounded
+	mutex      map[Ptr]*mstate
+	wgs        map[Ptr]*int
+	atomVals   map[Ptr]V
+	switches   int
+	sleep      []sleepEnt
+	noSleep    bool
+	yieldObj   *int
 }
 
 type mstate struct {
@@ -51,11 +75,27 @@ type mstate struct {
 }
 
 func NewSched(in *Interp, maxPreempt int) *Sched {
-	s := &Sched{in: in, kill: make(chan struct{}), maxPreempt: maxPreempt, mutex: map[Ptr]*mstate{}, wgs: map[Ptr]*int{}, atomVals: map[Ptr]V{}}
+	s := &Sched{in: in, kill: make(chan struct{}), maxPreempt: maxPreempt, mutex: map[Ptr]*mstate{}, wgs: map[Ptr]*int{}, atomVals: map[Ptr]V{}, yieldObj: new(int), noSleep: os.Getenv("GOSYM_NOSLEEP") != ""}
 	main := &G{id: 0, resume: make(chan struct{}, 1)}
 	s.gs = []*G{main}
 	s.cur = main
 	return s
+}
+
+func readLike(k string) bool { return k == "rlock" || k == "runlock" || k == "aload" }
+
+func dependent(a, b pendOp) bool {
+	if readLike(a.kind) && readLike(b.kind) {
+		return false
+	}
+	for _, x := range a.objs {
+		for _, y := range b.objs {
+			if x == y {
+				return true
+			}
+		}
+	}
+	return false
 }
 
 func (s *Sched) enabled() []*G {
@@ -66,6 +106,15 @@ func (s *Sched) enabled() []*G {
 		}
 	}
 	return out
+}
+
+func (s *Sched) asleep(g *G) bool {
+	for _, e := range s.sleep {
+		if e.g == g {
+			return true
+		}
+	}
+	return false
 }
 
 // wait parks the calling goroutine until it is resumed.
@@ -87,92 +136,131 @@ func (s *Sched) setFatal(pe pathEnd) {
 	}
 }
 
-// switchTo hands the baton from g (current) to next.
-func (s *Sched) switchTo(g, next *G) {
-	if next == g {
-		return
+func (s *Sched) describeBlocked() string {
+	desc := ""
+	for _, x := range s.gs {
+		if !x.done {
+			desc += fmt.Sprintf("g%d:%s ", x.id, x.what)
+		}
 	}
-	s.switches++
-	s.cur = next
-	next.resume <- struct{}{}
-	s.wait(g)
-	s.cur = g
+	return desc
 }
 
-// point is a scheduling point before a visible operation of g (g is runnable).
-func (s *Sched) point(g *G) {
-	en := s.enabled()
-	if len(en) <= 1 {
-		return
-	}
-	if s.preempt >= s.maxPreempt {
-		return
-	}
-	// option 0 = continue g; others = preempt to another goroutine
-	opts := []*G{g}
-	for _, o := range en {
-		if o != g {
-			opts = append(opts, o)
-		}
-	}
-	k := s.in.ex.take("sched", len(opts), nil)
-	if k != 0 {
-		s.preempt++
-		s.switchTo(g, opts[k])
-	}
-}
-
-// block parks g until pred holds; another goroutine must run meanwhile.
-func (s *Sched) block(g *G, what string, pred func() bool) {
-	for !pred() {
-		g.pred, g.what = pred, what
-		en := s.enabled()
-		if len(en) == 0 {
-			desc := ""
-			for _, x := range s.gs {
-				if !x.done {
-					desc += fmt.Sprintf("g%d:%s ", x.id, x.what)
-				}
-			}
-			pe := pathEnd{"deadlock", desc}
-			if g.id == 0 {
-				g.pred = nil
-				panic(pe)
-			}
-			s.setFatal(pe)
-			panic(killed{})
-		}
-		k := 0
-		if len(en) > 1 {
-			k = s.in.ex.take("sched-block", len(en), nil)
-		}
-		s.switchTo(g, en[k])
+// abort ends the path from goroutine g with the given leaf.
+func (s *Sched) abort(g *G, pe pathEnd) {
+	if g.id == 0 {
 		g.pred = nil
+		panic(pe)
+	}
+	s.setFatal(pe)
+	panic(killed{})
+}
+
+// decide picks the goroutine that performs the next visible operation. g is the goroutine making the decision (the
+// one that was running); gEnabled tells whether g itself is among the enabled ones (false when it exits or blocks).
+func (s *Sched) decide(g *G, gEnabled bool) *G {
+	en := s.enabled()
+	if len(en) == 0 {
+		return nil
+	}
+	var opts []*G
+	if gEnabled && !s.asleep(g) {
+		opts = append(opts, g)
+	}
+	if !(gEnabled && s.maxPreempt >= 0 && s.preempt >= s.maxPreempt) {
+		for _, o := range en {
+			if o != g && !s.asleep(o) {
+				opts = append(opts, o)
+			}
+		}
+	}
+	if len(opts) == 0 {
+		s.abort(g, pathEnd{"infeasible", "sleep-set blocked"})
+	}
+	k := 0
+	if len(opts) > 1 {
+		k = s.in.ex.take("sched", len(opts), nil)
+	}
+	chosen := opts[k]
+	if !s.noSleep {
+		for _, o := range opts[:k] {
+			s.sleep = append(s.sleep, sleepEnt{o, o.pend})
+		}
+		// executing chosen's operation wakes every sleeper whose pending operation depends on it
+		kept := s.sleep[:0]
+		for _, e := range s.sleep {
+			if !dependent(e.pend, chosen.pend) {
+				kept = append(kept, e)
+			}
+		}
+		s.sleep = kept
+	}
+	if gEnabled && chosen != g {
+		s.preempt++
+	}
+	return chosen
+}
+
+// visible is called by goroutine g immediately before a visible operation on objs; pred (may be nil) tells whether the
+// operation can execute. It returns when g has been picked to execute it.
+func (s *Sched) visible(objs []any, kind string, pred func() bool) {
+	g := s.cur
+	g.pend = pendOp{objs, kind}
+	g.pred = pred
+	g.what = kind
+	gEnabled := pred == nil || pred()
+	chosen := s.decide(g, gEnabled)
+	if chosen == nil {
+		s.abort(g, pathEnd{"deadlock", s.describeBlocked()})
+	}
+	if chosen != g {
+		s.switches++
+		s.cur = chosen
+		chosen.resume <- struct{}{}
+		s.wait(g)
+		s.cur = g
 	}
 	g.pred = nil
+}
+
+// point is a pure scheduling point (yield).
+func (s *Sched) point(g *G) {
+	s.visible([]any{s.yieldObj}, "yield", nil)
 }
 
 // exit is called when a non-main goroutine finishes.
 func (s *Sched) exit(g *G) {
 	g.done = true
-	en := s.enabled()
-	if len(en) == 0 {
-		// everyone else is blocked
-		desc := ""
-		for _, x := range s.gs {
-			if !x.done {
-				desc += fmt.Sprintf("g%d:%s ", x.id, x.what)
-			}
+	allDone := true
+	for _, x := range s.gs {
+		if !x.done {
+			allDone = false
 		}
-		s.setFatal(pathEnd{"deadlock", desc})
+	}
+	if allDone {
 		return
 	}
-	k := 0
-	if len(en) > 1 {
-		k = s.in.ex.take("sched-exit", len(en), nil)
+	en := s.enabled()
+	if len(en) == 0 {
+		s.setFatal(pathEnd{"deadlock", s.describeBlocked()})
+		return
 	}
-	s.cur = en[k]
-	en[k].resume <- struct{}{}
+	var chosen *G
+	func() {
+		defer func() {
+			if r := recover(); r != nil {
+				if _, ok := r.(killed); !ok {
+					panic(r)
+				}
+			}
+		}()
+		chosen = s.decide(g, false)
+	}()
+	if chosen == nil {
+		return
+	}
+	s.cur = chosen
+	chosen.resume <- struct{}{}
 }
 
 func (s *Sched) spawnThunk(f func()) {
@@ -184,7 +272,8 @@ func (s *Sched) spawn(fn V, args []V) {
 }
 
 func (s *Sched) spawnF(body func()) {
-	g := &G{id: len(s.gs), resume: make(chan struct{}, 1)}
+	g := &G{id: len(s.gs), resume: make(chan struct{}, 1), what: "start"}
+	g.pend = pendOp{[]any{g}, "start"}
 	s.gs = append(s.gs, g)
 	s.wg.Add(1)
 	go func() {
@@ -226,10 +315,10 @@ func (s *Sched) finish() {
 
 func (s *Sched) send(ch *ChanV, v V) {
 	g := s.cur
-	s.point(g)
 	if ch == nil {
-		s.block(g, "send nil chan", func() bool { return false })
+		s.visible([]any{g}, "send nil chan", func() bool { return false })
 	}
+	s.visible([]any{ch}, "chan send", nil)
 	if ch.closed {
 		panic(goPanic{Str{S: "send on closed channel"}})
 	}
@@ -239,7 +328,7 @@ func (s *Sched) send(ch *ChanV, v V) {
 	}
 	w := &sendW{g: g, val: v}
 	ch.sendq = append(ch.sendq, w)
-	s.block(g, "chan send", func() bool { return w.done || ch.closed })
+	s.visible([]any{ch}, "chan send (waiting for receiver)", func() bool { return w.done || ch.closed })
 	if !w.done {
 		panic(goPanic{Str{S: "send on closed channel"}})
 	}
@@ -271,20 +360,22 @@ func (ch *ChanV) take() (V, bool) {
 
 func (s *Sched) recv(ch *ChanV) (V, bool) {
 	g := s.cur
-	s.point(g)
 	if ch == nil {
-		s.block(g, "recv nil chan", func() bool { return false })
+		s.visible([]any{g}, "recv nil chan", func() bool { return false })
 	}
-	if !ch.recvReady() {
+	waiting := !ch.recvReady()
+	if waiting {
 		ch.recvWaiting++
-		s.block(g, "chan recv", ch.recvReady)
+	}
+	s.visible([]any{ch}, "chan recv", ch.recvReady)
+	if waiting {
 		ch.recvWaiting--
 	}
 	return ch.take()
 }
 
 func (s *Sched) closeCh(ch *ChanV) {
-	s.point(s.cur)
+	s.visible([]any{ch}, "chan close", nil)
 	if ch.closed {
 		panic(goPanic{Str{S: "close of closed channel"}})
 	}
@@ -303,34 +394,30 @@ func (s *Sched) mu(p Ptr) *mstate {
 }
 
 func (s *Sched) lock(p Ptr) {
-	g := s.cur
-	s.point(g)
 	m := s.mu(p)
-	s.block(g, "lock", func() bool { return !m.writer && m.readers == 0 })
+	s.visible([]any{p}, "lock", func() bool { return !m.writer && m.readers == 0 })
 	m.writer = true
 }
 
 func (s *Sched) unlock(p Ptr) {
 	m := s.mu(p)
+	s.visible([]any{p}, "unlock", nil)
 	if !m.writer {
 		panic(goPanic{Str{S: "unlock of unlocked mutex"}})
 	}
 	m.writer = false
-	s.point(s.cur)
 }
 
 func (s *Sched) rlock(p Ptr) {
-	g := s.cur
-	s.point(g)
 	m := s.mu(p)
-	s.block(g, "rlock", func() bool { return !m.writer })
+	s.visible([]any{p}, "rlock", func() bool { return !m.writer })
 	m.readers++
 }
 
 func (s *Sched) runlock(p Ptr) {
 	m := s.mu(p)
+	s.visible([]any{p}, "runlock", nil)
 	m.readers--
-	s.point(s.cur)
 }
 
 func (s *Sched) wgCounter(p Ptr) *int {
@@ -344,16 +431,14 @@ func (s *Sched) wgCounter(p Ptr) *int {
 
 func (s *Sched) wgAdd(p Ptr, n int) {
 	c := s.wgCounter(p)
+	s.visible([]any{p}, "wg add", nil)
 	*c += n
 	if *c < 0 {
 		panic(goPanic{Str{S: "negative WaitGroup counter"}})
 	}
-	s.point(s.cur)
 }
 
 func (s *Sched) wgWait(p Ptr) {
-	g := s.cur
-	s.point(g)
 	c := s.wgCounter(p)
-	s.block(g, "wg wait", func() bool { return *c == 0 })
+	s.visible([]any{p}, "wg wait", func() bool { return *c == 0 })
 }
